@@ -689,6 +689,23 @@ func doProp(dir string) {
 				errf("%s: missing method %s", files[0], g)
 			}
 		}
+		// the constructor from JSON: builds the element list and sets every element's parent and index
+		for n, fd := range fs {
+			if strings.HasPrefix(n, "Deserialize") && strings.HasSuffix(n, "Property") && fd.Recv == nil {
+				body := normBody(fd, pi.Struct, iter, "", "")
+				body = regexp.MustCompile(`func DESER\(|func Deserialize\w*\(`).ReplaceAllString(body, "func DESER(")
+				body = regexp.MustCompile(`Deserialize\w+Property\b`).ReplaceAllString(body, "DESER")
+				body = regexp.MustCompile(`aliasMap\["[^"]+"\]`).ReplaceAllString(body, `aliasMap["URI"]`)
+				if m := regexp.MustCompile(`propName := "(\w+)"`).FindStringSubmatch(body); m != nil {
+					body = strings.ReplaceAll(body, `"`+m[1]+`"`, `"NAME"`)
+					body = strings.ReplaceAll(body, `"`+m[1]+`Map"`, `"NAMEMap"`)
+				}
+				pi.Shapes["Deserialize"] = hash(canon(body))
+			}
+		}
+		if _, ok := pi.Shapes["Deserialize"]; !ok {
+			errf("%s: no Deserialize…Property constructor", files[0])
+		}
 		for _, g := range []string{"Next", "Prev", "GetIRI", "IsIRI", "SetIRI", "clear:"} {
 			g2 := strings.TrimSuffix(g, ":")
 			if fd := fs[iter+"."+g2]; fd != nil {
